@@ -59,11 +59,13 @@ CLAIMED = {
                 "released, handed on or stored on every path (typestate over the datatype variables only, so no function is "
                 "excluded); (7) destructors release a field unconditionally or under that field's own NULL test, "
                 "release-on-empty tests see the count after the removal, and the sites that release one kind of object "
-                "release the same owned parts. Not decided: communicators, info objects and file handles as resources, "
+                "release the same owned parts; (8) the id handed to del_from_PNCList is the one the table handed out, a failed "
+                "driver create / open gives the slot back and returns the error on every path, and close as well as abort "
+                "cancel pending requests before the file object is released. Not decided: communicators, info objects and file handles as resources, "
                 "leaks that need an allocation or MPI failure, the 16 functions over R3.leak's state budget (frozen list; "
                 "treated as capturing), isolation between files.",
         "note": "Single-threaded build. R3.leak assumes allocation and MPI calls succeed; four reports are discharged by "
-                "reasoned predicates whose side conditions are re-tested (DESIGN 10.5a). Found and fixed: F-C17-2..12.",
+                "reasoned predicates whose side conditions are re-tested (DESIGN 10.5a). Found and fixed: F-C17-2..14.",
         "design_ref": "DESIGN.md section 3 / C17, rule R3 (clauses 1, 4, 5)",
     },
     "C05": {
@@ -79,7 +81,8 @@ CLAIMED = {
                 "pending queue; the header snapshot of a redefinition is taken after the record count has been "
                 "synchronised; the MPI_MAX reduction of the wait path covers the array slot the record count travels in; "
                 "NC_lead_req.max_rec (what the new count is derived from) accumulates with MAX inside per-segment loops, its "
-                "closed forms equal highest record + 1 (evaluated on a small grid) and req_commit folds it with MAX. "
+                "closed forms equal highest record + 1 (evaluated on a small grid) and req_commit folds it with MAX; a record "
+                "count derived from a request's geometry is computed only under nelems > 0 (a request that transferred data). "
                 "Equality of the count across ranks at run time and the on-disk value are not decided.",
         "note": "assume_mpi_ok for communication calls; field NC.numrecs identified by struct/field identity from clang.",
         "design_ref": "DESIGN.md section 3 / C05",
@@ -189,7 +192,9 @@ CLAIMED = {
                 "element count the reader accepts has an external size below 2^63 (hdr_get_NC_attr evaluated for every "
                 "version x type x a dictionary of extreme words); the intra-node aggregation groups and the copy of their "
                 "rank ids stay inside the node's rank list (bounded); the header chunk reader turns a read of nothing into an "
-                "error and agrees on the read status whenever there is more than one process. It "
+                "error and agrees on the read status whenever there is more than one process; compute_var_shape, evaluated "
+                "under an overflow trap on headers with extreme begin / length values, performs no sum that leaves the signed "
+                "64-bit range. It "
                 "does not decide absence of undefined behaviour in general, typed access to byte-sliced buffers, or "
                 "resource proportionality; 7 oversized functions are outside the release analysis (frozen list).",
         "note": "field identities from clang; LATER table: NC_var.len (dead), NC_var.begin (ncmpio_NC_check_voffs).",
@@ -204,7 +209,8 @@ CLAIMED = {
                 "the driver only with NC_REQ_ZERO set (collective) or not at all (independent); the zero-length path "
                 "transfers (NULL, 0); check_EINVALCOORDS agrees with the documented strict/relaxed rule on every "
                 "ordering of its inputs and its call sites are index-aligned; check_EEDGE agrees with the documented "
-                "rule on a bounded grid (bounded only - it uses arithmetic); vars_flatten turns a request into "
+                "rule on a bounded grid that includes strides and shapes up to 2^63-1, evaluated under a signed-64-bit overflow "
+                "trap (bounded only - it uses arithmetic); vars_flatten turns a request into "
                 "exactly the byte ranges of the addressed elements in packed-buffer order, and merge_requests keeps "
                 "exactly the requested bytes, sorted and disjoint, first request winning (both bounded, against "
                 "independent models), and a request classified contiguous by is_request_contiguous is one run of "
@@ -242,8 +248,9 @@ CLAIMED = {
                 "enters the aggregated fill request only after its no_fill flag was tested; redefinition fills only "
                 "variables with id >= old->vars.ndefined; offsets to fill come from the new layout (the old header is "
                 "used for counts only); the per-rank shares tile each variable exactly (bounded: nprocs <= 5); the "
-                "_FillValue attribute guards (type, single element, late fill) are in place. Values read back are not "
-                "decided.",
+                "_FillValue attribute guards (type, single element, late fill) are in place; ncmpio__enddef reaches the fill "
+                "step exactly when the file has at least one variable, whatever their kinds (the guard evaluated for 0..3 "
+                "fixed-size x 0..3 record variables). Values read back are not decided.",
         "note": "R8.partition is a bounded enumeration of an arithmetic slice, not an exhaustive argument.",
         "design_ref": "DESIGN.md section 3 / C16",
     },
